@@ -16,7 +16,7 @@ RULE = ("call lists of length 0..12 over a stateful reference object (counter, l
         "(call list, mode, serializer, server); non-trivial = list has >= 2 calls")
 ASSUMPTIONS = ["oneway-marked methods and iterator-returning methods are not batched (documented as unsupported)",
                "an exposure failure may surface at submission instead of at its position (the statement allows both)"]
-REQUIRED_REACH = ["deferred_result_reading", "copied_batchproxy_equal", "impatient_batch_state_equal", "batch_equal", "failure_at_position", "failure_at_submit", "oneway_equal", "state_compared", "reused_batchproxy_equal", "forgotten_oneway_batch_equal", "long_batches"]
+REQUIRED_REACH = ["shards_with_translating_error_handler", "deferred_result_reading", "copied_batchproxy_equal", "impatient_batch_state_equal", "batch_equal", "failure_at_position", "failure_at_submit", "oneway_equal", "state_compared", "reused_batchproxy_equal", "forgotten_oneway_batch_equal", "long_batches"]
 SHARD_TIMEOUT = {"quick": 200, "thorough": 2400}
 
 
@@ -577,6 +577,16 @@ def run_shard(shard, rec):
     r = gen.rng(rec.seed, "c11", shard["servertype"], shard["serializer"])
     fx = fixture.Fixture(servertype=shard["servertype"], COMMTIMEOUT=0.0, variant=fixture.variant_for(rec.seed, "c11", repr(sorted(shard.items()))))
     rec.count("fixture_variant:" + fx.variant)
+    if (len(shard["serializer"]) + len(shard["servertype"]) + rec.seed) % 2:
+        # the daemon's documented extension point for failing calls, used the way applications use it: a handler that TRANSLATES some
+        # exceptions (internal detail -> what the API promises) by raising another one. Whatever it does for a call made on its own, it does
+        # for the same call as a batch member (the sequential run on the identical object is the reference, as everywhere in this check)
+        def translating_handler(daemon, client, method, vargs, kwargs, exception):
+            rec.count("error_handler_calls")
+            if type(exception) in (ValueError, P.errors.NamingError):
+                raise PermissionError("translated", type(exception).__name__, [repr(a) for a in exception.args])
+        fx.daemon.methodcall_error_handler = translating_handler
+        rec.count("shards_with_translating_error_handler")
     try:
         n = 0
         alias_probe(fx, Ref, shard["serializer"], rec, 0)
